@@ -131,17 +131,27 @@ def unwrapNode (f : Facts) (child : Bool) (d : Option Obj) : G Obj :=
     | some (.obj o) => .ok o
     | some _ => if f.nodeNotMapIsError then .error (.err "node-not-map" (.other "node is not a map")) else .ok []
 
-def unwrapAll (f : Facts) : List Bool → List (Option Obj) → G (List Obj)
-  | c :: cs, d :: ds => match unwrapNode f c d with
-    | .error e => .error e
-    | .ok o => match unwrapAll f cs ds with
-      | .error e => .error e
-      | .ok os => .ok (o :: os)
-  | _, _ => .ok []
+/-- the error of a failed unwrap / the object of a successful one -/
+def errOf : G Obj → Option GoErr
+  | .error (.err _ e) => some e
+  | _ => none
 
-/-- one exchange end to end: `queryBatch`, the executor's count check, node unwrapping per request.
-    (`parseRespones` unwraps concurrently and reports every failing unwrap; the model reports the first —
-    the harness compares message classes.) -/
+def okOf : G Obj → Option Obj
+  | .ok o => some o
+  | _ => none
+
+@[simp] theorem errOf_ok (o : Obj) : errOf (.ok o) = none := rfl
+@[simp] theorem okOf_ok (o : Obj) : okOf (.ok o) = some o := rfl
+@[simp] theorem errOf_err (c : String) (e : GoErr) : errOf (.error (.err c e)) = some e := rfl
+
+/-- `parseRespones` unwraps every response (concurrently, through `AsyncMapReduce`) and returns the errors of
+    ALL failing ones (here in request order; the reducer's order is a permutation, `C20_exact_once`) -/
+def unwrapAll (f : Facts) (cs : List Bool) (ds : List (Option Obj)) : G (List Obj) :=
+  let rs := List.zipWith (unwrapNode f) cs ds
+  let errs := rs.filterMap errOf
+  if errs.isEmpty then .ok (rs.filterMap okOf) else .error (.err "node" (.errorList errs))
+
+/-- one exchange end to end: `queryBatch`, the executor's count check, node unwrapping per request -/
 def decodeExchange (f : Facts) (url : String) (child : List Bool) (w : Wire) : G (List Obj) :=
   let n := child.length
   match queryBatch f url n w with
